@@ -15,6 +15,8 @@ ensure_certs()
 THOROUGH = tier() == 'thorough'
 echo = Origin('echo')
 echo2 = Origin('echo')
+fakeh = Origin(fake_http_proxy)    # upstream proxies that glue the origin's first bytes to their own reply
+fakes = Origin(fake_socks_proxy)
 echo3 = Origin('echo')
 CLOSED_LB = free_port()
 def once(c, a, rec):
@@ -79,12 +81,15 @@ def mk(hsize, splice):
         {'name': 'socks', 'bind': f"127.0.0.1:{p['socks']}"},
         {'name': 'rev', 'type': 'reverse', 'bind': f"127.0.0.1:{p['rev']}", 'target': f'127.0.0.1:{echo.port}'}],
         'connectors': [{'name': 'direct'}, {'name': 'up', 'type': 'http', 'server': '127.0.0.1', 'port': hopb_port},
+                       {'name': 'fakeh', 'type': 'http', 'server': '127.0.0.1', 'port': fakeh.port}, {'name': 'fakes', 'type': 'socks', 'server': '127.0.0.1', 'port': fakes.port},
                        {'name': 'dead', 'type': 'http', 'server': '127.0.0.1', 'port': DEADP},
                        {'name': 'lb-inner', 'type': 'loadbalance', 'connectors': ['direct']},
                        {'name': 'lb-outer', 'type': 'loadbalance', 'connectors': ['lb-inner']}],
         'rules': [{'filter': 'request.target.host == "deny.test"', 'target': 'deny'},
                   {'filter': 'request.target.host == "dead.test"', 'target': 'dead'},
                   {'filter': f'request.target.port == {echo2.port}', 'target': 'up'},
+                  {'filter': 'request.target.host =~ "^glued-" && request.target.port == 81', 'target': 'fakeh'},
+                  {'filter': 'request.target.host =~ "^glued-" && request.target.port == 82', 'target': 'fakes'},
                   {'filter': f'request.target.port == {echo3.port}', 'target': 'lb-outer'},
                   {'filter': f'request.target.port == {CLOSED_LB}', 'target': 'lb-inner'},
                   {'target': 'direct'}],
@@ -182,6 +187,23 @@ class Conn:
                 self.note = 'echo incomplete'
             self.terminal = 'ErrorOccured' if k == 'abort' else 'Terminated'
             return True
+        if k in ('banner-glued-http', 'banner-glued-socks'):
+            # the upstream proxy's reply and the origin's first 43 bytes arrive together: they are payload of the
+            # origin -> client direction
+            ok = self._request('glued-43.test', 81 if k.endswith('http') else 82)
+            if not ok:
+                self.note = 'tunnel not established'
+                self.terminal = '?'
+                return False
+            self.connector = 'fakeh' if k.endswith('http') else 'fakes'
+            banner = self.rest + recv_exact(self.sock, 43 - len(self.rest), 5)
+            self.sock.sendall(b'x' * 1000)
+            got = recv_exact(self.sock, 1000, 5)
+            self.up, self.down = 1000, len(banner) + len(got)
+            if banner != b'B' * 43 or len(got) != 1000:
+                self.note = f'banner {banner[:10]!r} / echo {len(got)}'
+            self.terminal = 'Terminated'
+            return True
         if k == 'slow-bulk':
             ok = self._request('127.0.0.1', sink.port)
             if not ok:
@@ -261,7 +283,7 @@ class Conn:
             pass
         self.sock = None
 
-KINDS = ['relay', 'early', 'origin-closes', 'denied', 'refused', 'dead-upstream', 'abort', 'garbage', 'eof', 'via-up', 'via-lb', 'via-lb-refused']
+KINDS = ['relay', 'early', 'origin-closes', 'denied', 'refused', 'dead-upstream', 'abort', 'garbage', 'eof', 'via-up', 'via-lb', 'via-lb-refused', 'banner-glued-http', 'banner-glued-socks']
 def alphabet():
     out = []
     for l in ('http', 'https', 'socks5', 'socks4', 'rev'):
@@ -570,7 +592,7 @@ for cfgc, r in zip(configs, results):
     if not isinstance(r, int):
         machinery(f'{cfgc}: {r}')
 hopb.stop()
-for o in (echo, echo2, echo3, bye, sink):
+for o in (echo, echo2, echo3, bye, sink, fakeh, fakes):
     o.stop()
 if evals < 300 or len(distinct) < 30:
     machinery(f'vacuous: evals={evals} distinct={len(distinct)}')
